@@ -256,6 +256,7 @@ struct PtrEngine final : Engine {
     unodb::this_thread().qsbr_resume();
     unodb::this_thread().quiescent();
     unodb::this_thread().quiescent();
+    if (const std::string bad = qsbr_idle_selftest(); !bad.empty()) { res.ok = false; res.vclass = "qsbr-state-inconsistent"; res.detail = bad; }
     run_end(res);
     uint64_t rej = 0, acc = 0;
     for (auto& k : cnt) { rej += k.probes_rejected; acc += k.probes_accepted; }
